@@ -179,6 +179,10 @@ func NewPrivateKeyFromInt(key *big.Int) (*PrivateKey, error) {
 		return nil, errors.New("sm2: private key is nil")
 	}
 	keyBytes := make([]byte, p256().N.Size())
+	if key.Sign() < 0 || key.BitLen() > 8*len(keyBytes) {
+		// FillBytes would panic
+		return nil, errInvalidPrivateKey
+	}
 	return NewPrivateKey(key.FillBytes(keyBytes))
 }
 
